@@ -141,3 +141,19 @@ TABLE['C17'] = {
     'level_text': 'Deductive proof, for all specifier lists and all versions of a dense order, that simplify_specifiers returns a set accepting exactly the versions every specifier accepts and raises ValueError only when no version does (the >=v,<=v,!=v defect this exposed was repaired), and that PkgConfigInfo.finalize adds inherited requirements before merging public and private lists. Writer and requirement algebra are checked bounded on the real classes.',
     'level_note': 'Trusted: PyVC, z3, the dense-order model of versions, verspec print/parse round trip. Bounded only: "unsatisfiable => rejected", RequirementSet algebra, .pc writer.',
 }
+
+TABLE['C20'] = {
+    'modules': ['contracts.windows'],
+    'level': 'proof',
+    'assumptions': [
+        'specs/crt.py (MS C runtime argument parsing, post-2008 rules incl. "" inside quotes) is written from the documentation; no Windows runtime exists in the sandbox: NOT tool-validated',
+        're.search on the family F5 "(class|...|a$)" and re.sub on the family F2 with the windows replacement function are the models of pyvc/models.py (cross-checked against CPython re on every run)',
+        'arguments contain no line break (Python\'s `$` also matches before a trailing newline); cmd.exe metacharacters are outside the claim, as the property says',
+        'uuid.uuid4() is an opaque source of fresh values; file I/O of the GUID map = json round trip (bounded run only)',
+    ],
+    'trusted_base': ['PyVC (pyvc/*.py)', 'z3 5.1.0', 'specs/crt.py'],
+    'not_covered': ['windows._tokenize / split / join deductively (bounded run on the real functions)', 'escape_percent variant', 'ninja cmd /s /c wrapping',
+                    'Solution.__setitem__/dependencies/set_default, project GUID uniqueness when two steps share a name'],
+    'level_text': 'Deductive proof, for all strings without line breaks (any runs of backslashes and quotes), that the MS C runtime rules read windows.quote_info(s) back as exactly the one argument s, and that UuidMap.__getitem__ marks the key seen, returns an existing GUID unchanged and leaves every other key alone. join/split inverse and GUID stability over run sequences are checked bounded on the real code.',
+    'level_note': 'Trusted: PyVC, z3, specs/crt.py (not tool-validated), regex family models (cross-checked). Bounded only: tokenizer/split/join, multi-run GUID persistence.',
+}
